@@ -265,16 +265,47 @@ func buildJournalModel(p *Program) *journalModel {
 
 // appendedEntry: ins is journal.append(T{...}); returns T.
 func (m *journalModel) appendedEntry(ins ssa.Instruction) *types.Named {
+	ts := m.appendedEntries(ins)
+	if len(ts) == 1 {
+		return ts[0]
+	}
+	return nil
+}
+
+// appendedEntries: the entry types an append may receive (several when the entry is chosen by a branch first).
+func (m *journalModel) appendedEntries(ins ssa.Instruction) []*types.Named {
 	c, ok := ins.(*ssa.Call)
 	if !ok || calleeName(c) != "(*vm.journal).append" {
 		return nil
 	}
-	mi, ok := c.Call.Args[1].(*ssa.MakeInterface)
-	if !ok {
+	var res []*types.Named
+	var walk func(v ssa.Value, d int) bool
+	walk = func(v ssa.Value, d int) bool {
+		switch x := resolveLoad(v).(type) {
+		case *ssa.MakeInterface:
+			n, _ := x.X.Type().(*types.Named)
+			if n == nil {
+				return false
+			}
+			res = append(res, n)
+			return true
+		case *ssa.Phi:
+			if d > 3 {
+				return false
+			}
+			for _, e := range x.Edges {
+				if !walk(e, d+1) {
+					return false
+				}
+			}
+			return len(x.Edges) > 0
+		}
+		return false
+	}
+	if !walk(c.Call.Args[1], 0) {
 		return nil
 	}
-	n, _ := mi.X.Type().(*types.Named)
-	return n
+	return res
 }
 
 func runC16(r *Run) {
@@ -381,10 +412,36 @@ func runC16(r *Run) {
 		via   string
 	}
 	covered := func(n need) bool {
-		suit := func(ins ssa.Instruction) bool {
-			t := m.appendedEntry(ins)
-			return t != nil && m.restores[t][n.field]
+		var suitD func(ins ssa.Instruction, depth int) bool
+		suitD = func(ins ssa.Instruction, depth int) bool {
+			ts := m.appendedEntries(ins)
+			if len(ts) > 0 {
+				for _, t := range ts {
+					if !m.restores[t][n.field] {
+						return false
+					}
+				}
+				return true
+			}
+			// a helper of package vm that appends such an entry on every path
+			sc := staticCallee(ins)
+			if sc == nil || depth > 1 || sc.Blocks == nil || fnPkg(sc) == nil || fnPkg(sc).Path() != vmPkg {
+				return false
+			}
+			inner := func(i ssa.Instruction) bool { return suitD(i, depth+1) }
+			has := false
+			allInstrs(sc, func(i ssa.Instruction) {
+				if inner(i) {
+					has = true
+				}
+			})
+			if !has {
+				return false
+			}
+			first := sc.Blocks[0].Instrs[0]
+			return inner(first) || pathToExitAvoiding(sc, first, inner) == nil
 		}
+		suit := func(ins ssa.Instruction) bool { return suitD(ins, 0) }
 		any := false
 		allInstrs(n.fn, func(ins ssa.Instruction) {
 			if suit(ins) {
